@@ -391,7 +391,7 @@ func (w *worker) runOne(chk *Check, idx int, timeout time.Duration) (res *Result
 	}
 }
 
-var raceFrameRe = regexp.MustCompile(`(?m)^\s+(github\.com/elastic/go-txfile[^\s(]*|verif/[^\s(]*)\(`)
+var raceFrameRe = regexp.MustCompile(`(?m)^\s+((?:github\.com/elastic/go-txfile|verif/)[^\n]*?)\([^()\n]*\)\s*$`)
 
 // dead converts a worker death into a violation (race report, fatal error, unrecovered panic).
 func (w *worker) dead(chk *Check, idx int, why string) *Result {
